@@ -122,6 +122,7 @@ class World:
                           "parent_token": before["token"] if before else None, "parent_epoch": before["epoch"] if before else None,
                           "parent_nid": before["nid"] if before else None, "tag_nid": before["nid"] if before else None,
                           "sender_admin": (str(sender) in before["admins"].split(",")) if before else None,
+                          "sender_queue": bool(before and (before["pa"] or before["pr"])),   # proposals queued in the sender's store: its commit carries them
                           "line": line}
         t = line.split()
         if t[0] == "leave":
@@ -677,7 +678,11 @@ def oracle_world(w):
                         # eviction is not noticed, the call fails later (`exporter_secret`) with the public tree already replaced
                         sig = "evicted-leaf-reused-undetected"
                     if before["epoch"] > f["epoch"]:
-                        sig = "rollback-before-authorisation" if (r0.startswith("err:CommitFromNonAdmin") or ev.get("adv")) else "refused-after-rollback"
+                        # unauthorised = forged with the MLS library, or an honest `self_update` of a NON-admin that swept queued proposals
+                        # out of its store (open finding nonadmin-selfupdate-sweeps-proposal: every receiver refuses it as CommitFromNonAdmin)
+                        unauth = ev.get("adv") or (ev.get("kind") == "commit" and ev.get("sender_admin") is False and ev.get("sender_queue")
+                                                   and (ev.get("line") or "").startswith("selfupdate"))
+                        sig = "rollback-before-authorisation" if (r0.startswith("err:CommitFromNonAdmin") or unauth) else "refused-after-rollback"
                         n_ev = int(t[2])
                         if sig == "rollback-before-authorisation":
                             # the listed mechanism needs the forged commit to be MIP-03-BETTER than the sibling this client had applied
@@ -1231,6 +1236,13 @@ def oracle_c11(pairs):
         first = next(((x, y) for x, y in zip(ra, rb) if x[0] != y[0] or x[1] != y[1] or x[2] != y[2]), None)
         if first and first[0][0] != first[1][0]:
             first = None            # the scripts themselves forked (the generator looks at the state): nothing to compare further
+        first_restart = next((idx for idx, (cmd, res, _) in enumerate(b.trace) if cmd.startswith("restart") and res == "ok"), None)
+        if first and first_restart is not None and first[1][3] < first_restart:
+            # the two runs part BEFORE the first restart: no restart can be the cause — a timestamp tie between two wrappers of the
+            # script (e.g. a re-tagged copy stamped like a forged commit) was decided by the random event ids of the two executions.
+            # Not a statement about restarts at all: the pair is dropped (counted)
+            stats["nondeterministic_before_first_restart"] = stats.get("nondeterministic_before_first_restart", 0) + 1
+            continue
         if va == vb and first is None:
             stats["equal"] += 1
         else:
